@@ -57,6 +57,8 @@ def classes():
           while time.time() - t0 < 4.0:       # (abandoned after plug_teardown_timeout_s = 0.03 s when all is well)
             time.sleep(0.001)
           LOG.append(('hang-not-abandoned', name))
+        if FAULTS.get('td_slow'):
+          time.sleep(0.15)         # a wind-down that takes longer than cancel_timeout_s
         if FAULTS.get('td_block') == name:
           # blocks where the asynchronous termination request cannot reach it (a C-level wait), until the framework
           # moves on to the next tearDown / the output callback -- or gives up waiting for that after 3 s
@@ -65,6 +67,7 @@ def classes():
           finally:   # (the pending termination request fires as soon as the wait returns)
             LOG.append(('block-end', name, RELEASE[0].is_set()))
             DONE[0].set()
+        LOG.append(('teardown-end', name, id(self)))
 
     # class D is a second, distinct class with the same module and class name as A (e.g. made by a plug factory)
     _P.__name__ = 'Plug' + ('A' if name == 'D' else name)
@@ -73,6 +76,20 @@ def classes():
 
   for n in 'ABCD':
     _cls[n] = mk(n)
+
+  class _E(base_plugs.BasePlug):
+    """Does not override tearDown in the class body: it binds its driver's close() on the instance."""
+
+    def __init__(self):
+      LOG.append(('init', 'E', id(self)))
+      self.tearDown = self._close
+
+    def _close(self):
+      LOG.append(('teardown', 'E', id(self)))
+      LOG.append(('teardown-end', 'E', id(self)))
+
+  _E.__name__ = _E.__qualname__ = 'PlugE'
+  _cls['E'] = _E
   return _cls
 
 
@@ -86,6 +103,7 @@ REQUESTS = [
     [('a1', 'A', True), ('a2', 'A', True)], [('c', 'C', False)], [('a', 'A', True), ('c', 'C', True)],
     [('a', 'A', True), ('d', 'D', True)],
     [('a', 'A', True, 'shadowed')],      # the phase also carries with_args(a=...): the plug must win
+    [('e', 'E', True)],
 ]
 TEST_STARTS = [None, 'lambda', [], [('a', 'A', True)], [('c', 'C', True)], [('a1', 'A', True), ('a2', 'A', True)]]
 
@@ -103,6 +121,13 @@ def make_phase(name, req, behaviour, test_holder):
       return h.PhaseResult.STOP
     if behaviour == 'hang':
       progs.CLOCK.hanging.add(threading.current_thread())
+      while True:
+        time.sleep(0.0005)
+    if behaviour == 'sigint':
+      import os, signal  # pylint: disable=g-import-not-at-top,multiple-imports
+      while not h.Test.TEST_INSTANCES:       # (Ctrl-C while the test is running and registered for it)
+        time.sleep(0.001)
+      os.kill(os.getpid(), signal.SIGINT)
       while True:
         time.sleep(0.0005)
     if behaviour == 'abort':
@@ -144,7 +169,7 @@ def run_case(case):
   phases = []
   for i, ridx in enumerate(case['phases']):
     beh = None
-    if kind in ('phase_raise', 'phase_stop', 'phase_hang', 'phase_abort') and arg == i:
+    if kind in ('phase_raise', 'phase_stop', 'phase_hang', 'phase_abort', 'phase_sigint') and arg == i:
       beh = kind.split('_')[1]
     phases.append(make_phase('ph%d' % i, REQUESTS[ridx], beh, holder))
   ts = TEST_STARTS[case['test_start']]
@@ -168,12 +193,15 @@ def run_case(case):
 
   def cb(rec):
     RELEASE[0].set()
-    LOG.append(('callback', rec.outcome.name))
+    LOG.append(('callback', rec.outcome.name if rec.outcome else None))
 
   test = h.Test(*phases)
   holder['test'] = test
   test.add_output_callbacks(cb)
   test.add_test_diagnosers(tdiag)
+  if kind == 'phase_sigint':
+    FAULTS['td_slow'] = True
+    conf.load(cancel_timeout_s=0.02)
   if kind in ('td_hang', 'td_block'):
     conf.load(plug_teardown_timeout_s=0.03)
   try:
@@ -185,7 +213,7 @@ def run_case(case):
     RELEASE[0].set()
     if kind == 'td_block' and any(e[0] == 'teardown' and e[1] == arg for e in list(LOG)):
       DONE[0].wait(5.0)
-    if kind in ('td_hang', 'td_block'):
+    if kind in ('td_hang', 'td_block', 'phase_sigint'):
       conf.reset()
   h.Test.HANDLED_SIGINT_ONCE = False
   return {'res': res, 'log': list(LOG)}
@@ -204,7 +232,7 @@ def expected_outcome(case):
     return 'ERROR'
   if kind == 'ts_stop':
     return 'FAIL'
-  if kind in ('ts_abort', 'phase_abort'):
+  if kind in ('ts_abort', 'phase_abort', 'phase_sigint'):
     return 'ABORTED'
   if kind == 'phase_raise':
     return 'ERROR'
@@ -250,8 +278,9 @@ def check(case, out):
     last_work = max(idx['phase'] + idx['tdiag'] + [-1])
     if min(idx['teardown']) < last_work:
       bad.append(('teardown-too-early', 'a plug tearDown ran before the last phase/test diagnoser finished: %r' % (log,)))
-    if idx['callback'] and max(idx['teardown']) > min(idx['callback']):
-      bad.append(('teardown-after-callback', 'a plug tearDown ran after an output callback: %r' % (log,)))
+    ends = [i for i, e in enumerate(log) if e[0] == 'teardown-end']
+    if idx['callback'] and max(idx['teardown'] + ends) > min(idx['callback']):
+      bad.append(('teardown-after-callback', 'a plug tearDown ran (or was still running) after an output callback: %r' % (log,)))
   for e in log:
     if e[0] == 'hang-not-abandoned':
       bad.append(('teardown-hang-not-abandoned', 'the hanging tearDown of %s ran for 4 s without being abandoned' % e[1]))
@@ -290,6 +319,7 @@ def cases(tier):
   faults += [('ts_raise', None), ('ts_stop', None), ('ts_abort', None)]
   for j in range(nph):
     faults += [('phase_raise', j), ('phase_stop', j), ('phase_hang', j), ('phase_abort', j)]
+  faults += [('phase_sigint', 0)]
   reqs = range(len(REQUESTS))
   for ph in itertools.product(reqs, repeat=nph):
     if tier == 'thorough' and sum(1 for r in ph if r == 0) > 1:
